@@ -529,6 +529,8 @@ pub open spec fn sharded_frame(old: World, fin: World, root: PathV, n: usize, na
                  '&& final(w).published == old(w).published' % BADNAME),
                 ('C12 C16:an-entry-is-only-ever-stored-under-one-of-its-two-candidate-shards',
                  'forall|p: PathV| #[trigger] final(w).files.contains_key(p) && !old(w).files.contains_key(p) ==> p == %s || p == %s' % (P1, P2)),
+                ('C01 C03 C19:a-write-never-changes-the-bytes-of-any-file',
+                 'bytes_kept(*old(w), *final(w))'),
                 ('C13 C11:success-means-a-publication-happened' + ('' if opname == 'set' else '-unless-the-key-was-already-bound'),
                  'r.is_ok() ==> final(w).published > old(w).published' + ('' if opname == 'set' else ' || old(w).files.contains_key(%s) || old(w).files.contains_key(%s)' % (P1, P2))),
                 ('C11:a-sharded-cache-never-ends-up-with-two-copies-of-one-key',
